@@ -31,6 +31,10 @@ func runExtras(e *Engine, prop, tier string) []*extraResult {
 		out = append(out, runBoundedGoTest(prop, tier, "bounded:queries", "boltz", "c01_queries_test.go", "^TestVerifBoundedQueries$",
 			"the whole-query half of C01 that the per-node contracts leave out (anyOf / allOf / count / isEmpty over sets incl. the index-seek shortcut, negated forms, null rules, number-to-string coercion, connectives, and the composition of parser, typing pass, scanner and node evaluation): seeded random filters (fully parenthesised, depth <= 3, 17 kinds of atoms over string, nullable string, int, float, bool, datetime and string-set fields) on a fixed dataset of 8 rows with nulls, empty strings, prefixes and case variants, evaluated through BaseStore.QueryIds on a real bbolt file and compared with a reference evaluator of the documented semantics; every fourth filter also with sort, skip and limit (quick: 1500 filters, thorough: 40000). The recorded deviation 'a null boolean reads as false' is mirrored, not re-reported"))
 	}
+	if prop == "C14" {
+		out = append(out, runBoundedGoTest(prop, tier, "bounded:treeCursor", "ast", "c14_treecursor_test.go", "^TestVerifBoundedTreeCursor$",
+			"the one assumed part of C14 (treeCursor's enumeration order is the trusted llrb contract, its own contract is safety-only): exhaustive on the real code over every insertion order of every subset of 6 keys (7 in the thorough tier; empty key, prefixes, a NUL byte, one duplicate insert), both directions - the cursor must yield exactly the distinct keys in byte order and then be invalid - plus the union cursor over two such tree cursors against the merged list"))
+	}
 	if prop == "C09" {
 		out = append(out, runBoundedGoTest(prop, tier, "bounded:integrity", "boltz", "c03_histories_test.go", "^TestVerifBoundedIntegrity$",
 			"the clauses of C09 that are not claimed as proved (a consistent database yields no report; corruption is reported; one fix run repairs every repairable inconsistency so that an immediate re-check is clean and the indexes again mirror the entities): consistent databases built from random model states over the stores of bounded:histories, 1-3 corruptions of the repairable classes applied directly to the buckets (unique index: missing / stale / wrong-target entry; set index: missing / stale entry, empty key, missing key; fk: missing / stale back-reference; links: one side missing / only one side present), then check run (must report, must not write), one fix run over all stores, re-check (must be clean), key-by-key comparison with a database built freshly from the entities (quick: 150 cases, thorough: 2500)"))
